@@ -475,6 +475,12 @@ class Exec:
         for name, shape in c.params.items():
             params[name] = fresh(shape, name, wf)
         st.pc.extend(wf)
+        if c.options.get("entry_aliases"):
+            # aliasing between parts of the entry state that a shape tree cannot say: [(path of the location, path of the object it refers to)], both from the parameters
+            P = SpecEnvRaw(params)
+            for tgt_fn, src_fn in c.options["entry_aliases"]:
+                o, attr = tgt_fn(P)
+                o.fields[attr] = src_fn(P)
         st.env = dict(params)
         self.input_syms = params
         old = _clone(params, {})
@@ -2376,6 +2382,8 @@ class Exec:
         def scalar_eq(nv, ov, path):
             if nv is ov:
                 return
+            if (is_z3(nv) or is_z3(ov)) and (isinstance(nv, EnumVal) or isinstance(ov, EnumVal)):
+                nv, ov = (getattr(nv, "value", nv), getattr(ov, "value", ov))  # an IntEnum member against a symbolic integer
             if is_z3(nv) or is_z3(ov):
                 a, b = to_z3(nv), to_z3(ov)
                 if a.eq(b):
